@@ -439,7 +439,7 @@ func (g *jgen) genValue(s *JS, o *oracle) string {
 		if s.AddlAny || s.Addl != nil {
 			n := g.rng.Intn(3)
 			var kv []string
-			keys := []string{"extra", "k2", "zz", "with space", "q\"uote"}
+			keys := []string{"extra", "k2", "zz", "with space", "q\"uote", "bell\x07", "del\x7f", "ctl\x01\x1f", "ls\u2028", "tag\U000E0001", "back\\slash", "nl\n", "é", "😀"}
 			g.rng.Shuffle(len(keys), func(i, j int) { keys[i], keys[j] = keys[j], keys[i] })
 			ks := keys[:n]
 			sort.Strings(ks)
